@@ -48,6 +48,12 @@ STRUCT_FAULTS = [
     ("unknown-field-wildcard", "_ { nope: 1, .. }", "nope"),
     ("unknown-nested-field", "Inner { a.nope: 1, .. }", "nope"),
     ("unknown-method", "Inner { a.nope(): 1, .. }", "nope"),
+    # a tuple-index step on a value that is not a tuple (the defect repaired in /repo 04cedd8: the index literal had the call-site span)
+    ("unknown-tuple-index", "Inner { a.0: 1, .. }", "a.0"),
+    ("unknown-tuple-index-after-method", "Inner { a.abs().1: 1, .. }", "a.abs().1"),
+    ("unknown-index-field-wildcard", "_ { 0: 1, .. }", "0"),
+    ("unknown-index-field-wildcard-chain", "_ { 0.abs(): 1, .. }", "0"),
+    ("unknown-index-field-named", "Inner { 5: 1, .. }", "5"),
     ("wrong-type-after-method", 'Inner { a.abs(): "x", .. }', '"x"'),
     ("wrong-index-type", 'Inner { xs["k"]: 1, .. }', '"k"'),
     # one dereference more than the field's type supports: the fault is on the run of `*`s itself
@@ -87,6 +93,61 @@ def make_cases():
             wd, wt, wv, wp, ws = P.wrap(pos, G(), ("x",), ("int", 0), pat)
             cases.append(dict(kind=kind, position=pos, decls=inner_decl + "\n" + wd, type=wt, value=wv, pattern=wp, focus=focus, inner=pat))
     return cases
+
+
+# A well-typed sub-pattern and an ILL-TYPED TWIN of it - the same text (field path or leaf) on a same-named field of another struct -
+# in one invocation, in both orders: the error belongs to the ill-typed one (seed C20-13 cached expanded field paths by their text, so
+# the twin re-used the first occurrence's tokens and spans and the error was reported on the well-typed line).
+TWIN_DECL = """#[derive(Debug)] struct In2 { name: i32, xs: i32, a: String, t: i32 }
+#[derive(Debug)] struct Out2 { name: String, xs: Vec<i32>, a: i32, t: (i32, i32), inner: In2, other: In3 }
+#[derive(Debug)] struct In3 { name: String, xs: Vec<i32>, a: i32, t: (i32, i32) }
+fn mk2() -> Out2 { Out2 { name: "abc".to_string(), xs: vec![1], a: 1, t: (1, 2), inner: In2 { name: 1, xs: 1, a: "x".to_string(), t: 1 },
+  other: In3 { name: "abc".to_string(), xs: vec![1], a: 1, t: (1, 2) } } }
+"""
+TWINS = [("method-path", "name.len(): 3"), ("index-path", "xs[0]: 1"), ("tuple-index-path", "t.0: 1"), ("method-chain-path", "name.len().count_ones(): 2"),
+         ("comparison-leaf", "a: > 0"), ("literal-leaf", "a: 1"), ("range-leaf", "a: 0..=5"), ("eq-leaf", "a: == 1"), ("closure-leaf", "a: |x: &i32| *x > 0")]
+
+
+def twin_part(ck):
+    progs = []
+    for kind, field in TWINS:
+        good_outer = ["Out2 {", "    %s," % field, "    inner: In2 {", "        %s," % field, "        ..", "    },", "    ..", "}"]
+        progs.append((kind, "outer-then-inner", good_outer, 3))
+        progs.append((kind, "inner-then-outer", ["Out2 {", "    inner: In2 {", "        %s," % field, "        ..", "    },", "    %s," % field, "    ..", "}"], 2))
+        progs.append((kind, "sibling-then-inner", ["Out2 {", "    other: In3 {", "        %s," % field, "        ..", "    },", "    inner: In2 {", "        %s," % field, "        ..", "    },", "    ..", "}"], 6))
+        progs.append((kind, "inner-alone", ["Out2 {", "    inner: In2 {", "        %s," % field, "        ..", "    },", "    ..", "}"], 2))
+    proj = e2e.Project("c20twin")
+    try:
+        for k, (kind, order, lines, bad) in enumerate(progs):
+            pre = t3.HEADER + TWIN_DECL + "\nfn main() {\nlet v = mk2();\nassert_struct!(v,\n"
+            proj.add_bin("w%03d" % k, pre + "\n".join(lines) + "\n);\n}\n")
+        built = proj.build(check_only=True)
+    finally:
+        proj.cleanup()
+    dist = {}
+    found = False
+    base = (t3.HEADER + TWIN_DECL + "\nfn main() {\nlet v = mk2();\nassert_struct!(v,\n").count("\n") + 1
+    for k, (kind, order, lines, bad) in enumerate(progs):
+        r = built["w%03d" % k]
+        if r["ok"]:
+            dist["%s/%s: compiles" % (kind, order)] = 1
+            ck.report("corr:twin-compiles:%s" % kind, "an ill-typed twin program compiles", dict(kind=kind, order=order, pattern=lines), no_input=True)
+            continue
+        prim = sorted({s["ls"] - base for d in r["diags"] for s in d["spans"] if s["primary"] and s["file"].endswith("w%03d.rs" % k)})
+        on_bad = bad in prim
+        on_good = [l for l in prim if l != bad and 0 <= l < len(lines) and lines[l].strip() == lines[bad].strip()]
+        where = "on the ill-typed sub-pattern" if on_bad else ("on its well-typed twin" if on_good else "elsewhere")
+        dist["%s/%s: %s" % (kind, order, where)] = 1
+        if not on_bad:
+            if order == "inner-alone":
+                continue      # (not locatable even alone: the single-fault matrix above is where that is judged)
+            found = True
+            ck.report("twin:%s/%s" % (kind, order), "the type error of an ill-typed sub-pattern is not reported on it when a well-typed sub-pattern with the same text occurs in the same invocation (reported %s)" % where,
+                      dict(kind=kind, order=order, invocation="assert_struct!(v,\n" + "\n".join(lines) + ")", faulty_line=lines[bad].strip(), faulty_line_index=bad,
+                           primary_lines=prim, errors=[dict(code=d["code"], message=d["message"][:160]) for d in r["diags"]][:3]))
+    ck.corr_record("T3 textual twins (a well-typed sub-pattern and an ill-typed one with the same text - field path or leaf - on a same-named field of another struct, in one invocation: outer then inner, inner then outer, sibling then inner, alone)",
+                   len(progs), len(progs), 0, dist, samples=[dict(kind=progs[0][0], order=progs[0][1], pattern=progs[0][2])], exhaustive=True, rule="%d twin texts x 4 arrangements" % len(TWINS))
+    return found
 
 
 def run(ck):
@@ -140,6 +201,7 @@ def run(ck):
                    len(cases), len(cases), 0, dist,
                    samples=[dict(fault=c["kind"], position=c["position"], invocation="assert_struct!(v, %s)" % c["pattern"]) for c in cases[:3]],
                    exhaustive=True, rule="the full fault x position matrix; every program distinct")
+    found = twin_part(ck) or found
     if t2_mm and not found:
         ck.report("corr:T2-body", "the model of the code generator (span stamps) no longer matches the real expansion (%d inputs differ)" % len(t2_mm),
                   dict(broken="correspondence T2 (token spans)", theorems=["C20_stamp_is_own_span"], first=t2_mm[:3]), no_input=True)
